@@ -172,6 +172,50 @@ Qed.
 End Uniq.
 
 (* ------------------------------------------------------------------ *)
+(** * What the matcher needs of the two documents                       *)
+(* ------------------------------------------------------------------ *)
+(* same shape, same tags, same attributes up to order, same similarity strings
+   (node_text), comments with the same text: everything node_ratio looks at.
+   Equal documents are an instance ([same_doc_sim]); so are documents that only
+   differ by white space that node_text collapses (TextOnly.v). *)
+Definition sim_doc (sim : Type) (o : mopts sim) (L R : forest) (root : id) : Prop :=
+  fnext L = fnext R /\
+  (forall n, n < fnext L -> fkids L n = fkids R n) /\
+  (forall n, n < fnext L -> ltag (flab L n) = ltag (flab R n) /\
+                            Permutation (lattrs (flab L n)) (lattrs (flab R n))) /\
+  (forall n, desc L root n -> node_text sim o R n = node_text sim o L n) /\
+  (forall n, desc L root n -> is_comment (ltag (flab L n)) = true ->
+             otext (ltext (flab R n)) = otext (ltext (flab L n))).
+
+Lemma same_doc_sim sim (o : mopts sim) L R root :
+  wf_forest L root -> same_doc L R -> sim_doc sim o L R root.
+Proof.
+  intros Hwf (Hn & Hk & Hl).
+  split; [exact Hn|]. split; [exact Hk|]. split; [|split].
+  - intros n Hx. destruct (Hl n Hx) as (H1 & _ & _ & H4). split; assumption.
+  - intros x Hd. pose proof (desc_lt_root L root Hwf x Hd) as Hx.
+    destruct (Hl x Hx) as (Htag & Htext & _ & Hperm).
+    assert (Ht : text_nodes R x = text_nodes L x).
+    { unfold text_nodes, labof, kidsof. rewrite <- Htext, <- (Hk x Hx).
+      replace (map (fun c => otext (ltail (flab R c))) (fkids L x))
+        with (map (fun c => otext (ltail (flab L c))) (fkids L x)); [reflexivity|].
+      apply map_ext_in. intros c Hc.
+      destruct (Hl c (wf_kids_lt L root Hwf x c Hx Hc)) as (_ & _ & H & _). rewrite H. reflexivity. }
+    assert (Hs : sort_attrs (node_attribs sim o (lattrs (labof R x)))
+                 = sort_attrs (node_attribs sim o (lattrs (labof L x)))).
+    { change (node_attribs sim o) with (node_attribs_d (oignored sim o)). unfold labof.
+      assert (NDl : NoDup (map fst (lattrs (flab L x)))) by apply (wf_attrs L root Hwf x Hx).
+      assert (NDr : NoDup (map fst (lattrs (flab R x)))).
+      { eapply Permutation_NoDup; [apply Permutation_map; exact Hperm|exact NDl]. }
+      apply sort_attrs_aeq.
+      + apply node_attribs_NoDup, NDr.
+      + apply node_attribs_NoDup, NDl.
+      + apply node_attribs_aeq, aeq_sym, aget_perm; assumption. }
+    unfold node_text. unfold labof in *. rewrite <- Htag, Ht, Hs. reflexivity.
+  - intros n Hd _. destruct (Hl n (desc_lt_root L root Hwf n Hd)) as (_ & H & _). rewrite H. reflexivity.
+Qed.
+
+(* ------------------------------------------------------------------ *)
 (** * The matcher on equal documents                                    *)
 (* ------------------------------------------------------------------ *)
 Section Match.
@@ -188,7 +232,7 @@ Local Notation F := (oF sim o).
 Local Notation PO := (po L root).
 
 Hypothesis Hwf : wf_forest L root.
-Hypothesis Hsame : same_doc L R.
+Hypothesis Hsim : sim_doc sim o L R root.
 
 Hypothesis leaf_refl : forall s, sim_is_one (leaf_sim s s) = true.
 Hypothesis comb_full : forall m n, sim_is_one m = true -> 0 < n -> sim_is_one (combine m n n) = true.
@@ -198,48 +242,25 @@ Hypothesis one_geF : forall x, sim_is_one x = true -> sim_leb F x = true.
 
 (* ---- labels of the two copies of a node ---- *)
 Lemma lab_tag x : x < fnext L -> ltag (labof R x) = ltag (labof L x).
-Proof. intros Hx. destruct Hsame as (_ & _ & Hl). destruct (Hl x Hx) as (H & _). symmetry; exact H. Qed.
-Lemma lab_text x : x < fnext L -> ltext (labof R x) = ltext (labof L x).
-Proof. intros Hx. destruct Hsame as (_ & _ & Hl). destruct (Hl x Hx) as (_ & H & _). symmetry; exact H. Qed.
-Lemma lab_tail x : x < fnext L -> ltail (labof R x) = ltail (labof L x).
-Proof. intros Hx. destruct Hsame as (_ & _ & Hl). destruct (Hl x Hx) as (_ & _ & H & _). symmetry; exact H. Qed.
+Proof. intros Hx. destruct Hsim as (_ & _ & Hl & _). destruct (Hl x Hx) as (H & _). symmetry; exact H. Qed.
 Lemma lab_attrs x : x < fnext L -> aeq (lattrs (labof L x)) (lattrs (labof R x)).
 Proof.
-  intros Hx. destruct Hsame as (_ & _ & Hl). destruct (Hl x Hx) as (_ & _ & _ & H).
+  intros Hx. destruct Hsim as (_ & _ & Hl & _). destruct (Hl x Hx) as (_ & H).
   apply aget_perm; [apply (wf_attrs L root Hwf x Hx)|exact H].
 Qed.
-Lemma lab_attrs_nodup_R x : x < fnext L -> NoDup (map fst (lattrs (labof R x))).
-Proof.
-  intros Hx. destruct Hsame as (_ & _ & Hl). destruct (Hl x Hx) as (_ & _ & _ & H).
-  eapply Permutation_NoDup; [apply Permutation_map; exact H|apply (wf_attrs L root Hwf x Hx)].
-Qed.
 Lemma kids_same x : x < fnext L -> kidsof R x = kidsof L x.
-Proof. intros Hx. destruct Hsame as (_ & Hk & _). symmetry. apply Hk, Hx. Qed.
-
-Lemma node_text_same x : x < fnext L -> node_text sim o R x = node_text sim o L x.
-Proof.
-  intros Hx.
-  assert (Ht : text_nodes R x = text_nodes L x).
-  { unfold text_nodes. rewrite (lab_text x Hx), (kids_same x Hx).
-    replace (map (fun c => otext (ltail (labof R c))) (kidsof L x))
-      with (map (fun c => otext (ltail (labof L c))) (kidsof L x)); [reflexivity|].
-    apply map_ext_in. intros c Hc. rewrite lab_tail; [reflexivity|].
-    apply (wf_kids_lt L root Hwf x c Hx Hc). }
-  assert (Hs : sort_attrs (node_attribs sim o (lattrs (labof R x)))
-               = sort_attrs (node_attribs sim o (lattrs (labof L x)))).
-  { change (node_attribs sim o) with (node_attribs_d (oignored sim o)).
-    apply sort_attrs_aeq.
-    + apply node_attribs_NoDup, lab_attrs_nodup_R, Hx.
-    + apply node_attribs_NoDup, (wf_attrs L root Hwf x Hx).
-    + apply node_attribs_aeq, aeq_sym, lab_attrs, Hx. }
-  unfold node_text. rewrite (lab_tag x Hx), Ht, Hs. reflexivity.
-Qed.
+Proof. intros Hx. destruct Hsim as (_ & Hk & _). symmetry. apply Hk, Hx. Qed.
+Lemma node_text_same x : desc L root x -> node_text sim o R x = node_text sim o L x.
+Proof. intros Hx. destruct Hsim as (_ & _ & _ & H & _). apply H, Hx. Qed.
+Lemma comment_text x : desc L root x -> is_comment (ltag (labof L x)) = true ->
+  otext (ltext (labof R x)) = otext (ltext (labof L x)).
+Proof. intros Hx Hc. destruct Hsim as (_ & _ & _ & _ & H). apply H; assumption. Qed.
 
 (* ---- a node against itself ---- *)
 (* the value of node_ratio on (x, x): a "one", or -- for an element with children
    on which the unique-attribute loop is silent -- combine m c n *)
 Lemma node_ratio_self_cases l2r x :
-  x < fnext L ->
+  desc L root x ->
   sim_is_one (nratio l2r x x) = true \/
   (is_comment (ltag (labof L x)) = false /\
    uniq_decide sim zero one o (ouniq sim o) (ltag (labof L x)) (ltag (labof R x))
@@ -248,13 +269,13 @@ Lemma node_ratio_self_cases l2r x :
    exists m, sim_is_one m = true /\
      nratio l2r x x = combine m (count_matched l2r (kidsof L x) (kidsof L x)) (length (kidsof L x))).
 Proof.
-  intros Hx. unfold node_ratio. rewrite (lab_tag x Hx).
+  intros Hd. pose proof (desc_lt_root L root Hwf x Hd) as Hx. unfold node_ratio. rewrite (lab_tag x Hx).
   destruct (is_comment (ltag (labof L x))) eqn:Hc; cbn [orb andb].
-  - left. rewrite (lab_text x Hx). apply leaf_refl.
+  - left. rewrite (comment_text x Hd Hc). apply leaf_refl.
   - destruct (ud_self sim zero one o (ltag (labof L x)) (lattrs (labof L x)) (lattrs (labof R x)) false
                 (lab_attrs x Hx)) as [E|E]; rewrite E.
     + left. exact one_one.
-    + rewrite (node_text_same x Hx). unfold child_ratio. rewrite (kids_same x Hx).
+    + rewrite (node_text_same x Hd). unfold child_ratio. rewrite (kids_same x Hx).
       destruct (kidsof L x) as [|c ks] eqn:Ek.
       * left. apply leaf_refl.
       * right. split; [reflexivity|]. split; [reflexivity|]. split; [discriminate|].
@@ -262,10 +283,11 @@ Proof.
 Qed.
 
 Lemma node_ratio_self l2r x :
-  x < fnext L -> (forall c, In c (fkids L x) -> l2r c = Some c) ->
+  desc L root x -> (forall c, In c (fkids L x) -> l2r c = Some c) ->
   sim_is_one (nratio l2r x x) = true.
 Proof.
-  intros Hx Hk. destruct (node_ratio_self_cases l2r x Hx) as [H|(_ & _ & Hne & m & Hm & E)]; [exact H|].
+  intros Hd Hk. pose proof (desc_lt_root L root Hwf x Hd) as Hx.
+  destruct (node_ratio_self_cases l2r x Hd) as [H|(_ & _ & Hne & m & Hm & E)]; [exact H|].
   rewrite E. rewrite count_matched_self.
   - apply comb_full; [exact Hm|]. destruct (kidsof L x); [congruence|cbn; lia].
   - apply (wf_kids_nodup L root Hwf x Hx).
@@ -277,7 +299,7 @@ Qed.
 Fixpoint ready (l2r : l2rmap) (pend : list id) : Prop :=
   match pend with
   | [] => True
-  | x :: rest => x < fnext L /\ ~ In x rest /\ (forall c, In c (fkids L x) -> l2r c = Some c) /\
+  | x :: rest => desc L root x /\ ~ In x rest /\ (forall c, In c (fkids L x) -> l2r c = Some c) /\
                  ready (upd l2r x (Some x)) rest
   end.
 
@@ -290,7 +312,7 @@ Proof.
   induction pend as [|x rest IH]; intros l2r Hss Hnd Hd Hk; cbn [ready]; [exact I|].
   inversion Hss as [|? ? Hss' Hall]; subst. inversion Hnd as [|? ? Hx Hnd']; subst.
   rewrite Forall_forall in Hall.
-  split; [apply (desc_lt_root L root Hwf), Hd; left; reflexivity|]. split; [exact Hx|]. split.
+  split; [apply Hd; left; reflexivity|]. split; [exact Hx|]. split.
   - intros c Hc. destruct (Hk x c (or_introl eq_refl) Hc) as [[E|Hin]|H]; [| |exact H].
     + subst c. exfalso. eapply (kid_not_self L root Hwf x); [apply Hd; left; reflexivity|exact Hc].
     + exfalso. apply (Hall c Hin). exact Hc.
@@ -378,7 +400,7 @@ Qed.
 
 Lemma rs_same : remove_id root (post_order (S (fnext R)) R root) = pend0.
 Proof.
-  destruct Hsame as (Hn & _). rewrite <- Hn.
+  destruct Hsim as (Hn & _). rewrite <- Hn.
   rewrite post_order_same by apply (wf_root_lt L root Hwf). reflexivity.
 Qed.
 
@@ -412,7 +434,7 @@ Definition pass (x y : id) : bool := sim_leb F (nratio e0 x y).
 (* the shape of node_ratio on a passing pair of elements on which the
    unique-attribute loop is silent *)
 Lemma pass_self_or a :
-  a < fnext L ->
+  desc L root a ->
   (exists s t n, 0 < n /\ sim_leb F (combine (leaf_sim s t) 0 n) = true) ->
   pass a a = true.
 Proof.
@@ -423,12 +445,13 @@ Proof.
 Qed.
 
 Lemma pass_closed a b :
-  a < fnext L -> b < fnext L -> pass a b = true -> pass a a = true /\ pass b b = true.
+  desc L root a -> desc L root b -> pass a b = true -> pass a a = true /\ pass b b = true.
 Proof.
-  intros Ha Hb Hp.
+  intros Hda Hdb Hp.
+  pose proof (desc_lt_root L root Hwf a Hda) as Ha. pose proof (desc_lt_root L root Hwf b Hdb) as Hb.
   (* either side passes against itself outright, or is an element with children
      on which the unique-attribute loop is silent *)
-  assert (Hshape : forall x, x < fnext L ->
+  assert (Hshape : forall x, desc L root x ->
             pass x x = true \/
             (is_comment (ltag (labof L x)) = false /\
              uniq_decide sim zero one o (ouniq sim o) (ltag (labof L x)) (ltag (labof R x))
@@ -475,10 +498,10 @@ Proof.
     - rewrite count_matched_none in Hp. do 3 eexists. split; [|exact Hp]. cbn [length]; lia.
     - rewrite count_matched_none in Hp. do 3 eexists. split; [|exact Hp]. cbn [length]; lia. }
   split.
-  - destruct (Hshape a Ha) as [H|(H1 & H2 & H3)]; [exact H|].
-    apply pass_self_or; [exact Ha|]. apply Hcomb. exists a. auto.
-  - destruct (Hshape b Hb) as [H|(H1 & H2 & H3)]; [exact H|].
-    apply pass_self_or; [exact Hb|]. apply Hcomb. exists b. auto.
+  - destruct (Hshape a Hda) as [H|(H1 & H2 & H3)]; [exact H|].
+    apply pass_self_or; [exact Hda|]. apply Hcomb. exists a. auto.
+  - destruct (Hshape b Hdb) as [H|(H1 & H2 & H3)]; [exact H|].
+    apply pass_self_or; [exact Hdb|]. apply Hcomb. exists b. auto.
 Qed.
 
 Lemma pend0_lt x : In x pend0 -> x < fnext L.
@@ -491,11 +514,11 @@ Theorem fast_stage ps :
   let ls' := drop_positions 0 (map (fun p => Z.to_nat (fst p)) ps) pend0 in
   let rs' := drop_positions 0 (map (fun p => Z.to_nat (snd p)) ps) pend0 in
   rs' = ls' /\ ready (ms_l2r s1) ls' /\
-  exists ms, ms_matches s1 = diag ms /\ (forall x, In x (ms ++ ls') <-> In x pend0).
+  exists ms, ms_matches s1 = diag ms /\ (forall x, In x (ms ++ ls') <-> In x pend0) /\ NoDup (ms ++ ls').
 Proof.
   intros Hlcs.
   assert (Hps : ps = map (fun i => (i, i)) (self_positions pass pend0)).
-  { apply lcs_seq_diag; [|exact Hlcs]. intros a b Ha Hb. apply pass_closed; apply pend0_lt; assumption. }
+  { apply lcs_seq_diag; [|exact Hlcs]. intros a b Ha Hb. apply pass_closed; [apply pend0_In, Ha|apply pend0_In, Hb]. }
   set (SP := self_positions pass pend0) in *.
   cbv zeta. rewrite Hps. rewrite !map_map. cbn [fst snd].
   set (g := fun p : Z * Z => nth_id pend0 (fst p)).
@@ -534,43 +557,100 @@ Proof.
   - exists M. split.
     + rewrite (fold_append_matches g g). cbn [ms_matches app]. rewrite map_map. unfold diag, M.
       rewrite map_map. reflexivity.
-    + intros x. rewrite in_app_iff. split.
-      * intros [H|H]; [apply HMin, H|eapply drop_positions_incl; exact H].
-      * apply Hdich.
+    + split.
+      { intros x. rewrite in_app_iff. split.
+        * intros [H|H]; [apply HMin, H|eapply drop_positions_incl; exact H].
+        * apply Hdich. }
+      assert (HSPr : forall i, In i SP -> (0 <= i)%Z /\ Z.to_nat i < length pend0).
+      { intros i Hi. apply self_positions_In in Hi as (Hi & a & Ea & _). split; [exact Hi|].
+        apply nth_error_Some. rewrite Ea. discriminate. }
+      apply NoDup_app_iff. split; [|split].
+      * unfold M. rewrite <- (map_map (fun i => (i, i)) (fun p : Z * Z => nth_id pend0 (fst p))).
+        apply (nth_id_NoDup pend0 fst); [apply pend0_NoDup| |].
+        -- intros q Hq. apply in_map_iff in Hq as (i & <- & Hi). cbn [fst]. apply HSPr, Hi.
+        -- eapply SS_map; [|apply diag_list_sorted]. intros a b Hab. exact Hab.
+      * apply drop_positions_NoDup, pend0_NoDup.
+      * intros x HxM Hxl. apply in_map_iff in HxM as (i & Ei & Hi).
+        destruct (HSPr i Hi) as [Hi0 Hil].
+        destruct (drop_positions_In _ _ _ _ Hxl) as (k & Hk & Hn). apply Hn. cbn [Nat.add].
+        apply in_map_iff. exists i. split; [|exact Hi].
+        apply (proj1 (NoDup_nth_error pend0) pend0_NoDup); [exact Hil|].
+        rewrite Hk. unfold nth_id in Ei. rewrite <- Ei. apply nth_error_nth'. exact Hil.
 Qed.
 End Fast.
 
 (* ------------------------------------------------------------------ *)
 (** * match_nodes                                                       *)
 (* ------------------------------------------------------------------ *)
-Theorem match_identity :
+Theorem match_identity_gen :
   (ofast sim o = true -> sim_leb F zero = false) ->
   (ofast sim o = true ->
    forall s t n x n', 0 < n -> sim_leb F (combine (leaf_sim s t) 0 n) = true ->
                       sim_is_one x = true -> 0 < n' -> sim_leb F (combine x 0 n') = true) ->
-  exists m,
-    match_nodes sim sim_ltb sim_leb sim_is_one zero one leaf_sim combine o L R root root = Some m /\
-    identity_matching L root m.
+  exists ms,
+    match_nodes sim sim_ltb sim_leb sim_is_one zero one leaf_sim combine o L R root root
+      = Some (diag ms ++ [(root, root)]) /\
+    NoDup ms /\ (forall x, In x ms <-> desc L root x /\ x <> root).
 Proof.
   intros F_pos comb0. unfold match_nodes. rewrite rs_same. fold PO. fold pend0.
   destruct (ofast sim o) eqn:Hfast.
   - specialize (F_pos eq_refl). specialize (comb0 eq_refl).
     change (fun x y : id => sim_leb F (nratio (fun _ : id => None) x y)) with pass.
     destruct (lcs_seq pass pend0 pend0) as [ps|] eqn:Hlcs.
-    + destruct (fast_stage F_pos comb0 ps Hlcs) as (Hrs & Hready & ms & Hms & Hcover).
-      cbv zeta in Hrs, Hready, Hms, Hcover. rewrite Hrs.
-      eexists. split; [reflexivity|].
-      cbn [append_match ms_matches]. rewrite (default_loop_ready _ _ Hready), Hms.
-      unfold diag. rewrite <- map_app. apply identity_intro. exact Hcover.
+    + destruct (fast_stage F_pos comb0 ps Hlcs) as (Hrs & Hready & ms & Hms & Hcover & Hnd).
+      cbv zeta in Hrs, Hready, Hms, Hcover, Hnd. rewrite Hrs.
+      eexists. split; [|split; [exact Hnd|]].
+      * cbn [append_match ms_matches]. rewrite (default_loop_ready _ _ Hready), Hms.
+        unfold diag. rewrite <- map_app. reflexivity.
+      * intros x. rewrite Hcover. apply pend0_In.
     + exfalso. destruct (lcs_seq_total pass pend0 pend0) as [ps Hps]. congruence.
   - destruct (obest sim o) eqn:Hbest.
     + destruct (best_stage1_ready pend0 (MS [] (fun _ => None)) [] ready_pend0) as (s' & E & Hm).
-      rewrite E. cbn [best_stage2 default_loop]. eexists. split; [reflexivity|].
-      cbn [append_match ms_matches]. rewrite Hm. cbn [ms_matches app].
-      apply identity_intro. intros x; reflexivity.
-    + eexists. split; [reflexivity|].
+      rewrite E. cbn [best_stage2 default_loop]. exists pend0.
+      split; [|split; [apply pend0_NoDup|apply pend0_In]].
+      cbn [append_match ms_matches]. rewrite Hm. reflexivity.
+    + exists pend0. split; [|split; [apply pend0_NoDup|apply pend0_In]].
       cbn [append_match ms_matches]. rewrite (default_loop_ready pend0 (MS [] (fun _ => None)) ready_pend0).
-      cbn [ms_matches app]. apply identity_intro. intros x; reflexivity.
+      reflexivity.
 Qed.
 
 End Match.
+
+(* a list of diagonal pairs over the non-root document nodes, plus the root
+   pair, is the identity matching *)
+Lemma identity_of_diag L root (ms : list id) :
+  (forall x, In x ms <-> desc L root x /\ x <> root) ->
+  identity_matching L root (map (fun x => (x, x)) ms ++ [(root, root)]).
+Proof.
+  intros H. split.
+  - intros l r Hin. apply in_app_or in Hin as [Hin|[E|[]]]; [|congruence].
+    apply in_map_iff in Hin as (x & E & _). congruence.
+  - intros n Hd. apply in_or_app. destruct (Nat.eq_dec n root) as [->|Hne]; [right; left; reflexivity|].
+    left. apply in_map_iff. exists n. split; [reflexivity|]. apply H. split; assumption.
+Qed.
+
+(* the statement used by EqualDocs.v (C03): equal documents *)
+Theorem match_identity :
+  forall (sim : Type) (sim_ltb sim_leb : sim -> sim -> bool) (sim_is_one : sim -> bool)
+         (zero one : sim) (leaf_sim : str -> str -> sim) (combine : sim -> nat -> nat -> sim)
+         (o : mopts sim) (L R : forest) (root : id),
+  wf_forest L root -> same_doc L R ->
+  (forall s, sim_is_one (leaf_sim s s) = true) ->
+  (forall m n, sim_is_one m = true -> 0 < n -> sim_is_one (combine m n n) = true) ->
+  sim_is_one one = true ->
+  (forall x, sim_is_one x = true -> sim_ltb zero x = true) ->
+  (forall x, sim_is_one x = true -> sim_leb (oF sim o) x = true) ->
+  (ofast sim o = true -> sim_leb (oF sim o) zero = false) ->
+  (ofast sim o = true ->
+   forall s t n x n', 0 < n -> sim_leb (oF sim o) (combine (leaf_sim s t) 0 n) = true ->
+                      sim_is_one x = true -> 0 < n' -> sim_leb (oF sim o) (combine x 0 n') = true) ->
+  exists m,
+    match_nodes sim sim_ltb sim_leb sim_is_one zero one leaf_sim combine o L R root root = Some m /\
+    identity_matching L root m.
+Proof.
+  intros sim sim_ltb sim_leb sim_is_one zero one leaf_sim combine o L R root Hwf Hsame
+         H1 H2 H3 H4 H5 H6 H7.
+  destruct (match_identity_gen sim sim_ltb sim_leb sim_is_one zero one leaf_sim combine o L R root
+              Hwf (same_doc_sim sim o L R root Hwf Hsame) H1 H2 H3 H4 H5 H6 H7) as (ms & Hm & _ & Hcover).
+  eexists. split; [exact Hm|]. apply identity_of_diag, Hcover.
+Qed.
